@@ -28,7 +28,7 @@ ASSUMPTIONS = ['both sides are the real offline monitor', 'horizon from RefHoriz
                'operator is present (envelope of F14a)', 'NaN values are compared as equal to NaN']
 REAL = common.REAL_ALL
 STUBS = common.STUBS_ALL
-PROBES = ['horizon_gt_0', 'pure_past', 'dense_time', 'padding_visible_outside_settled_region', 'truncated_to_one_sample', 'bounds_with_explicit_units']
+PROBES = ['horizon_gt_0', 'pure_past', 'dense_time', 'padding_visible_outside_settled_region', 'truncated_to_one_sample', 'bounds_with_explicit_units', 'pastified_after_an_offline_evaluation']
 INTERLEAVING_MEASURE = 'distinct (time domain, log length, truncation point) tuples'
 ENVELOPE_RULES = ['bounded-op-nonzero-start (F14a) for dense time']
 
@@ -79,7 +79,7 @@ def _gen(rng, tier):
         text = 'out = ' + sg.to_text(ast, sg.Spelling(rng)) + ';'
     # the object that evaluates the long log has a history: it was used before under a sampling period k times as long
     prior_factor = rng.choice([2, 3, 10]) if rng.random() < 0.15 else None
-    return {'dense': False, 'vars': vars_, 'ast': ast, 'n': n, 'data': data, 'notation': notation, 'prior_factor': prior_factor,
+    return {'past_off': rng.random() < 0.08, 'dense': False, 'vars': vars_, 'ast': ast, 'n': n, 'data': data, 'notation': notation, 'prior_factor': prior_factor,
             'text': text, 'cls': rng.choice(['dt_off', 'dt_off', 'dt'])}
 
 
@@ -92,12 +92,24 @@ def run(sc):
     ast = sc['ast']
     h = sg.horizon(ast)
     nt = sc.get('notation') if (sc['text'] and not sc['dense']) else None     # a shrunk formula is re-printed in ticks
+    past_off = bool(sc.get('past_off')) and not sc['dense'] and 0 < h < float('inf') and \
+        not any(x[0] in ('until_b', 'unless_b') for x in sg.walk(ast))      # (pastified bounded until = 'precedes': online only, rejected offline)
+    if past_off:
+        # the combined class, used offline AFTER pastify() (and after an earlier evaluation): the formula is then pure past,
+        # so every value is settled at once (horizon 0)
+        h = 0
     text = sc['text'] or (common.dense_text(ast) if sc['dense'] else 'out = ' + sg.to_text(ast) + ';')
     desc = {'cls': sc['cls'], 'vars': common.var_decls(sc['vars']), 'spec': text}
     if nt:
         desc.update(units.spec_config(nt))
         if units.notation_class(nt) != 'plain':
             r.probes['bounds_with_explicit_units'] += 1
+    if past_off:
+        k0 = min(3, sc['n'])
+        st0 = units.stamps(nt, k0) if nt else list(range(k0))
+        desc = dict(desc, cls='dt', pastify=True, prior={'unit': desc.get('unit'), 'sampling': desc.get('sampling'),
+                                                         'data': dict((v, sc['data'][v][:k0]) for v in sc['data']), 'times': st0})
+        r.probes['pastified_after_an_offline_evaluation'] += 1
     used = sg.vars_of(ast)
     nontriv = False
     try:
@@ -197,6 +209,10 @@ def shrinks(sc):
     if sc.get('prior_factor'):
         c = copy.deepcopy(sc)
         c['prior_factor'] = None
+        yield c
+    if sc.get('past_off'):
+        c = copy.deepcopy(sc)
+        c['past_off'] = False
         yield c
     if sc['dense']:
         for c in common.shrink_dense(sc):
